@@ -565,3 +565,70 @@ PROPS["C18"] = dict(
     bounds={"quick": "17 skeletons, executions of <= 10 block visits, every block visit x every dead / unreported variable", "thorough": "<= 14 block visits"},
     outside=["inter-procedural assertion crawler (summaries)", "array/reference statements", "programs outside the family"],
     assumptions=E2_ASSUME)
+
+# ---------------------------------------------------------------- C12: exactness on the domain's own language
+def c12_jobs(tier, seed):
+    J = []
+    rng = random.Random(120 + seed)
+    zkinds = ["c.1.0", "c.0.1", "c.2.0", "c.0.2", "c.1.2", "c.2.1"]
+    ikinds = ["c.1.0", "c.0.1", "c.2.0", "c.0.2"]
+    curated = ["c.1.2", "c.1.0,c.0.1", "c.1.2,c.2.1", "c.1.0,c.2.1,c.0.2", "c.1.2,c.2.0,fgt.2", "c.1.0,c.0.1,c.2.1,fgt.1", "c.1.0,c.0.1,cpy,swp,c.2.0,c.0.2,join",
+               "c.0.1,c.2.0,swp,c.0.1,c.2.0,join", "c.1.2,c.1.0,swp,c.1.2,c.0.2,join", "c.1.2,cpy,swp,c.2.1,meet", "c.1.0,c.0.2,swp,c.1.2,c.2.1,meet", "c.1.2,c.2.1,c.1.0,cpy,fgt.1,swp,join"]
+
+    def gen(kinds, n):
+        out = []
+        for _ in range(n):
+            a = rng.sample(kinds, rng.choice([1, 2, 2, 3]))
+            b = rng.sample(kinds, rng.choice([1, 2, 2]))
+            op = rng.choice(["join", "join", "meet", "fgt", "none"])
+            if op in ("join", "meet"):
+                out.append(",".join(b + ["swp"] + a + [op]))
+            elif op == "fgt":
+                out.append(",".join(a + ["fgt.%d" % rng.choice([1, 2])]))
+            else:
+                out.append(",".join(a))
+        return out
+    n = 30 if tier == "quick" else 400
+    for s in curated + gen(zkinds, n):
+        J.append(Job("exact", {"seq": s}, defines=("DOM=2",), budget=400, what="zones (bignum weights) exact on %s" % s, witnesses=1))
+    for s in (curated[:8] + gen(zkinds, n // 3)):
+        for d in (3, 4) if tier == "quick" else (3, 4, 24):
+            args = {"seq": s}
+            if d in MACHINE_WEIGHT:
+                # every int64 weight (and the probe constant) is concretised: short sequences, small constants
+                if s.count("c.") > (2 if tier == "quick" else 3):
+                    continue
+                args["cr"] = 1 if tier == "quick" else 2
+            J.append(Job("exact", args, defines=("DOM=%d" % d,), budget=600, what="%s exact on %s" % (DOMS[d][0], s), witnesses=1, soft=True))
+    for s in ["c.1.0,c.0.1", "c.1.0,c.2.0,c.0.1", "c.1.0,c.0.1,cpy,swp,c.1.0,c.0.1,join", "c.1.0,swp,c.1.0,c.0.2,meet", "c.1.0,c.0.1,fgt.1"] + gen(ikinds, n // 3):
+        J.append(Job("exact", {"seq": s}, defines=("DOM=1",), budget=300, what="intervals exact on %s" % s, witnesses=1))
+    octs = ["o.p.1.p.2", "c.1.2", "o.p.1.m.2,o.m.1.p.2", "o.p.1.p.2,fgt.2"] + (["o.p.1.p.2,o.m.1.m.2", "o.p.1.p.2,c.1.2", "o.p.1.p.2,swp,o.p.1.m.2,meet"] if tier == "thorough" else [])
+    for s in octs:
+        J.append(Job("exact", {"seq": s, "oct": 1, "cr": 2}, defines=("DOM=5",), budget=900, what="octagons exact on %s (constants in +-2)" % s, witnesses=1, shards=4, shard_depth=6))
+    J.append(Job("exact", {"seq": "o.p.1.p.2,swp,o.p.1.m.2,meet", "oct": 1, "cr": 1}, defines=("DOM=5",), budget=900, what="octagon meet (known finding F21: only soundness is required)", witnesses=1))
+    # liftings never report looser bounds than their base on straight-line numerical code
+    straight = [s for s in gen_core_straight()]
+    for d in (9, 11, 12, 13, 14, 16, 17, 18, 20, 21):
+        for s in straight[d % 2::2] if tier == "quick" else straight:
+            J.append(dom_job(d, s, "c12l", budget=400, tier=tier))
+    return J
+
+
+def gen_core_straight():
+    out = []
+    for s in gen.core():
+        ops = [gen.opname(o) for o in s.split(",")]
+        if any(o in ("cpy", "cpyc", "swp", "join", "joineq", "meet", "meeteq", "wid", "widt", "nar", "leq", "top", "ren", "exp") for o in ops):
+            continue
+        out.append(s)
+    return out
+
+
+PROPS["C12"] = dict(
+    jobs=c12_jobs,
+    explanation="Exactness of intervals, zones (split_dbm with bignum and int64 weights, sparse_dbm) and octagons on their own constraint language: in-language constraints with SYMBOLIC constants are added to the real domain, interleaved with forget, copy, join and meet; the reference is a difference-bound matrix over solver terms (octagons: tight closure = shortest paths + integer tightening + strong coherence); "
+                "z3 decides for all constants: is_bottom <=> unsatisfiable, at(v) bounds = tightest implied bounds, entails(x_i - x_j <= q) <=> implied (fresh q), join = least value above both, meet/forget exact. Liftings (flat Boolean, array smashing/adaptive, reduced products, powerset, value partitioning, packing, term, fixed_tvpi) vs their base domain on straight-line histories: bounds at least as tight.",
+    bounds={"quick": "2 variables; 12 curated + 30 generated constraint sequences (<= 3+2 constraints, one lattice operation) on zones with unbounded constants; a third of them on int64 zones / sparse_dbm (constants +-3); intervals; 5 octagon sequences with constants in +-2; 10 liftings x half of the straight-line core histories",
+            "thorough": "400 generated sequences; more octagon sequences"},
+    outside=["more than 2 variables", "octagon constants beyond +-2 (every int64 weight is concretised)", "octagon meet exactness (known finding F21)", "sequences with more than one lattice operation"],
+    assumptions=E2_ASSUME + ["the reference difference-bound matrix (Floyd-Warshall; for octagons the tight closure of Bagnara-Hill-Zaffanella) written in sym/h/exact.cpp is the specification of exactness"])
